@@ -41,7 +41,10 @@ def run_one(pid: str, tier: str) -> int:
     budget = int(os.environ.get("VERIF_BUDGET_S", "240"))
 
     def _over(signum, frame):
-        raise core.AnalysisError(f"time budget of {budget} s exceeded (a symbolic comparison did not terminate in time)")
+        import traceback
+
+        where = [f"{Path(fs.filename).name}:{fs.lineno} {fs.name}" for fs in traceback.extract_stack(frame) if "/verif/rules/" in fs.filename or "/verif/engine/" in fs.filename]
+        raise core.AnalysisError(f"time budget of {budget} s exceeded (a symbolic comparison did not terminate in time) at {' > '.join(where[-3:])}")
 
     import signal
 
